@@ -23,13 +23,13 @@ SEEDS = {
              demo="cargo test --offline --lib c07_demo (after git apply demo.diff)", detect=("C07", "quick", "c12_ver_k1_nonce36")),
  "C09": dict(properties=["C09", "C02"], change="send_responses de-duplicates adjacent requests with equal nonces (requests.dedup_by) after the leaves are in the tree",
              needs="two adjacent requests of one protocol with identical NONC in one batch", demo="bash run_demo.sh <worktree> (real server + crafted batches, demo.py)",
-             detect=("C09", "quick", "c09_light_classic_k2_same_nonce")),
+             detect=("C09", "quick/thorough", "c09_pairing_classic_k2_same_nonce / c09_batch_classic_k2_same_nonce")),
  "C10": dict(properties=["C10", "C02"], change="LongTermKey memoises the delegation prefix of the first make_cert call", needs="a second certificate from the same key for the other protocol (Server::new: IETF then classic)",
              demo="cargo test --offline --lib c10_demo (after git apply demo.diff)", detect=("C10", "quick", "c10_cert_ietf_then_classic")),
  "C11": dict(properties=["C11"], change="epoch seconds pass through a u32 in a shared helper", needs="a clock at or after 2106-02-07 (secs >= 2^32)",
              demo="cargo test --offline --lib c11_midp_demo (after git apply demo.diff)", detect=("C11", "quick", "c11_srep_classic")),
  "C12": dict(properties=["C12"], change="SRV compared with a zip-based 'constant-time' fold that stops at the shorter input", needs="an SRV that is a proper prefix or an extension of the server's value",
-             demo="cargo test --offline --lib c12_srv_demo (after git apply demo.diff)", detect=("C12", "quick", "c12_srv28_k1")),
+             demo="cargo test --offline --lib c12_srv_demo (after git apply demo.diff)", detect=("C12", "quick", "c12_srv4_k1")),
  "C13": dict(properties=["C13"], change="sign() no longer clears the buffer; update() clears lazily at the next message's first chunk", needs="an empty message signed with no update() call after a non-empty one on the same signer",
              demo="cargo test --offline --lib c13_demo (after git apply demo.diff)", detect=("C13", "quick", "c13_signer_no_update_second")),
  "C14": dict(properties=["C14"], change="decrypt_seed slices the wrapped DEK out of the blob instead of read_exact", needs="a wrapped-length field within 3 of the blob length (or truncation of a blob with a long wrapped key): slice index panic",
@@ -40,7 +40,13 @@ SEEDS = {
              demo="cargo test --offline --lib stats::merge_demo (after git apply demo.diff)", detect=("C17", "quick", "c17_client_merge")),
 }
 confirm = open("/var/tmp/confirm.log").read() if os.path.exists("/var/tmp/confirm.log") else ""
-evals = "".join(open(f).read() for f in ("/var/tmp/seedeval1.log", "/var/tmp/seedeval2.log", "/var/tmp/seedeval3.log", "/var/tmp/seedeval4.log") if os.path.exists(f))
+evals = "".join(open(f, errors="replace").read() for f in ("/var/tmp/seedeval1.log", "/var/tmp/seedeval2.log", "/var/tmp/seedeval3.log", "/var/tmp/seedeval4.log", "/var/tmp/seedeval5.log", "/var/tmp/seedeval6.log") if os.path.exists(f))
+OVERRIDE = {
+ "C09": "NOT detected: the two-request harnesses (c09_pairing_*, c09_light_*: optional) did not finish within the 900 s cap on the mutant (Vec::dedup_by with a symbolic comparison is expensive for CBMC); the check exited 0 and listed them as undecided. The full c09_batch_classic_k2_same_nonce (thorough) asserts exactly-one-datagram-per-request and would fail on this change if it finishes.",
+ "C01": "NOT detected: the change uses thread_local!, which makes kani-compiler 0.68 panic (same intrinsics ICE as std::thread::current); the check exits 2 (tool error), i.e. inconclusive rather than a silent pass. The sequence harness c01_genuine_then_spliced_classic would apply to a cache kept in ordinary state.",
+ "C16": "evaluation runs so far ended with exit 2 (harness timed out while the machine was overloaded by parallel evaluations; one log was lost): not yet shown detected. The harness c16_file_batch_size asserts VERIF:C16:out-of-range-value-refused (accepted => 1 <= batch_size <= 64), which batch_size 0 violates on this change.",
+ "C12": "exit 1, VIOLATION reproduced natively (c12_srv4_k1); the 28-byte shape ends in an unwinding assertion (exit 2) on this mutant",
+}
 for sid, m in SEEDS.items():
     d = os.path.join(V, "seeded", sid)
     if not os.path.isdir(d):
@@ -58,7 +64,7 @@ for sid, m in SEEDS.items():
                                   "demonstration fails with the patch and passes after git apply -R",
         "evaluated_with": "tools/seed_eval.sh %s %s (patch applied to a scratch copy of /repo's working tree, check pointed at it via VERIF_REPO; /repo untouched)" % (sid, prop),
         "detected_by": {"property_check": prop, "tier": tier, "harness": harness,
-                        "result": ("exit 1, VIOLATION reproduced natively" if viol else ("runs: %s" % ev if ev else "not evaluated yet"))},
+                        "result": OVERRIDE.get(sid, "exit 1, VIOLATION reproduced natively" if viol else ("runs: %s" % ev if ev else "not evaluated yet"))},
     }
     json.dump(meta, open(os.path.join(d, "meta.json"), "w"), indent=1)
     print(sid, meta["detected_by"]["result"], "|", (c[-1][:60] if c else "unconfirmed"))
